@@ -195,6 +195,18 @@ Theorem C07_duplicate_continues : forall h S p t,
     (forall b, b ∈ owned [tc] -> (h_next h <= b)%positive /\ b ∉ h_live h).
 Proof. exact dup_continues. Qed.
 Print Assumptions C07_duplicate_continues.
+(** an accepted history, then a duplication, then cJSON_Delete of every root INCLUDING the copy:
+    no error outcome, no live library block left, borrowed memory untouched *)
+Theorem C07_duplicate_then_balanced : forall ops p,
+  pre_ok_all3b S0 ops = true -> dup_okb (spec_run3 S0 ops) p = true ->
+  exists h1 tc h2 h3,
+    run_ops3 ops empty_heap = Ret (spec_results3 S0 ops, h1) /\
+    cJSON_Duplicate nv (Some p) true h1 = Ret (Some (tid tc), h2) /\
+    delete_roots (roots (a_forest (spec_run3 S0 ops) ++ [tc])) h2 = Ret (tt, h3) /\
+    lib_live h3 = ∅ /\
+    (forall b, h_own h1 !! b = Some Foreign -> b ∈ h_live h1 -> b ∈ h_live h3 /\ h_str h3 !! b = h_str h1 !! b).
+Proof. exact dup_then_balanced. Qed.
+Print Assumptions C07_duplicate_then_balanced.
 (** … and, for every oracle and every argument, a duplication that returns leaves borrowed memory alone *)
 Theorem C07_duplicate_conservative : forall oracle item recurse h r h',
   cJSON_Duplicate oracle item recurse h = Ret (r, h') -> HeapOK h -> Cons_post h h'.
@@ -207,6 +219,12 @@ Theorem C07_duplicate_nonvacuous :
     cJSON_Duplicate nv (Some 3%positive) true h = Ret (Some (tid tc), h') /\ copy_of h' t tc /\
     Abs3 h' S' /\ a_forest S' = a_forest (spec_run3 S0 ex6_live) ++ [tc].
 Proof. exact ex6_dup. Qed.
+Theorem C07_duplicate_then_balanced_nonvacuous :
+  exists h1 tc h2 h3,
+    run_ops3 ex6_live empty_heap = Ret (spec_results3 S0 ex6_live, h1) /\
+    cJSON_Duplicate nv (Some 3%positive) true h1 = Ret (Some (tid tc), h2) /\
+    delete_roots (roots (a_forest (spec_run3 S0 ex6_live) ++ [tc])) h2 = Ret (tt, h3) /\ lib_live h3 = ∅.
+Proof. exact ex6_dup_balanced. Qed.
 
 (** ------------------------------------------------------------------ 6. non-vacuity *)
 
